@@ -18,9 +18,9 @@
   per processor, in name order, with that processor's parameters only.
 
   Mirrored details: the instance of section `S` is called `S_templ_<i>` (first free `i`); the
-  section a parameterised processor named is removed afterwards (a processor WITHOUT parameters that
-  names the same section then finds nothing: `notfound`); a processor with parameters gets an
-  instance even when its section has no template construct.
+  section a parameterised processor named is removed afterwards unless a processor WITHOUT
+  parameters still names it (it runs it as it is); a processor with parameters gets an instance
+  even when its section has no template construct.
   Core-only.
 -/
 import BMV.Basm
@@ -117,14 +117,18 @@ def instCp (ts : TSource) (st : InstState) (cp : CpDef) : Option InstState :=
                      removed := cp.romcode :: st.removed }
 
 /-- `templateResolver`: processors in name order; afterwards the sections the parameterised
-    processors named are gone.  The processors keep their source order in the result. -/
+    processors named are gone, unless a processor without parameters still runs one as it is
+    (/repo f1b3cb1; before, such a processor found nothing).  The processors keep their source
+    order in the result. -/
 def instantiate (ts : TSource) : Option Source :=
   let st0 : InstState := { sections := ts.base.sections, tnames := ts.templates.map (·.name) }
   match (sortCps ts.base.cps).foldlM (instCp ts) st0 with
   | none => none
   | some st =>
     let cps := ts.base.cps.filterMap fun c => st.cps.find? (·.name == c.name)
-    some { ts.base with sections := st.sections.filter (fun s => !st.removed.contains s.name), cps := cps }
+    some { ts.base with
+      sections := st.sections.filter (fun s => !st.removed.contains s.name || st.cps.any (·.romcode == s.name)),
+      cps := cps }
 
 /-! ### what the pre-pass guarantees -/
 
